@@ -240,7 +240,7 @@ def step (s : St) (toks : List String) : IO (St × Bool) := do
   | ["race", k, t1, v1, t2, v2] =>
     match k.toNat?, t1.toNat?, v1.toNat?, t2.toNat?, v2.toNat? with
     | some k, some t1, some v1, some t2, some v2 =>
-      if t1 = t2 ∨ isPending s t1 ∨ isPending s t2 ∨ t1 = 0 ∨ t2 = 0 then bad else
+      if t1 = t2 ∨ isPending s t1 ∨ isPending s t2 ∨ t1 = 0 ∨ t2 = 0 ∨ s.joining.any (fun p => p.1 = t1 ∨ p.1 = t2) then bad else
       let pre : List Ev := match (m.key k).published with
         | some _ => []
         | none => [.keyCreate t1 k, .keyCreate t2 k, .keyCas t1 k, .keyCas t2 k]
